@@ -105,6 +105,17 @@ def rule_bytes_before_dirent(ctx):
                   "a death between the two leaves an entry pointing past the end of the destination",
                   detail={"path": w})
         # and the mark is updated before too (so a failure in dump_dir_entry leaves a consistent flushed prefix)
+    # the flush that precedes the entry writes EVERYTHING appended so far (not just the range the entry names):
+    # blobs a stream references may lie behind the stream's own range in the image
+    o2 = Origin(b)
+    for a in ap:
+        wa = strip(o2.call_args(a)[1])
+        okall = False
+        if wa[0] == "call" and wa[1].split("::")[-1] == "index":
+            rng = strip(wa[2][1])
+            okall = root(strip(wa[2][0])) == ("param", 2) and rng[0] == "agg" and rng[1].endswith("ops::RangeFrom")
+        ctx.check(okall, R, ("write_to_file", "flush-all-pending"), b.where(a), "the flush before a directory entry covers every byte appended so far (buffer[flushed..])",
+                  "the flush before a directory entry stops short of the end of the image: data a stream references behind its own range is not yet at the destination when its entry is written")
     # dump_dir_entry has no other caller
     callers = set()
     for body in ctx.prog.bodies:
